@@ -33,6 +33,7 @@ def tasks(tier):
         for np_ in spec.PREFIXES:
             t.append(('conc_ratio', np_ + nb))
     t.append(('conc_short',))
+    t.append(('float_targets', 7))
     toks = 'thorough' if tier == 'thorough' else 'quick'
     for chunk in range(16):
         t.append(('conc_reject_bounded', toks, chunk, 16))
@@ -41,6 +42,11 @@ def tasks(tier):
 
 def run(kind, *args):
     return globals()['run_' + kind](*args)
+
+
+def run_float_targets(n):
+    from contracts import float_targets
+    return float_targets.run(PID, n)
 
 
 def _unsup(out):
@@ -315,11 +321,14 @@ TOKENS = {
 }
 
 
+MAXDEN = {'quick': 2, 'thorough': 2}
+
+
 def conc_strings(tokset):
+    """the enumeration, as generated inside the native job (kept here for the count and for reading)"""
     toks = TOKENS[tokset]
-    seps = [' ']
     nums = [list(t) for n in (1, 2, 3) for t in itertools.product(toks, repeat=n)]
-    dens = [[]] + [list(t) for n in (1, 2, 3 if tokset == 'thorough' else 2) for t in itertools.product(toks, repeat=n)]
+    dens = [[]] + [list(t) for n in range(1, MAXDEN[tokset] + 1) for t in itertools.product(toks, repeat=n)]
     for nu in nums:
         for de in dens:
             if de == []:
@@ -330,12 +339,14 @@ def conc_strings(tokset):
 
 def run_conc_reject_bounded(tokset, chunk, nchunks):
     """Bounded stand-in: executes the REAL parse_concentration (natively, on the current tree) on every string made
-    of up to 3 tokens per side from a grammar-derived token set; a string outside the documented grammar that is
-    given a meaning — or a string inside it that is rejected or mis-valued — is a failing input."""
-    strings = [s for i, s in enumerate(conc_strings(tokset)) if i % nchunks == chunk]
-    job = {'inputs': {'n': len(strings)}, 'code': BOUNDED_CODE.replace('@@STRINGS@@', json.dumps(strings))}
-    out = harness.run_replay(job, timeout=1200)
-    bound = f"all strings of <=3 tokens numerator x <={3 if tokset == 'thorough' else 2} tokens denominator over {len(TOKENS[tokset])} tokens"
+    of up to 3 tokens in the numerator and up to 2 in the denominator from a grammar-derived token set; a string
+    outside the documented grammar that is given a meaning — or a string inside it that is rejected or mis-valued —
+    is a failing input.  The strings are generated inside the native job (nothing is materialised here)."""
+    job = {'inputs': {'tokens': TOKENS[tokset], 'chunk': chunk, 'nchunks': nchunks},
+           'code': BOUNDED_CODE.replace('@@TOKENS@@', json.dumps(TOKENS[tokset])).replace('@@MAXDEN@@', str(MAXDEN[tokset]))
+           .replace('@@CHUNK@@', str(chunk)).replace('@@NCHUNKS@@', str(nchunks))}
+    out = harness.run_replay(job, timeout=3000)
+    bound = f"all strings of <=3 tokens numerator x <={MAXDEN[tokset]} tokens denominator over {len(TOKENS[tokset])} tokens"
     if out.get('ok') is None:
         return [{'name': f'{PID}/Unit.parse_concentration/bounded[reject]', 'case': f'chunk {chunk}', 'kind': 'bounded',
                  'verdict': 'unknown', 'note': str(out.get('error'))[-500:], 'count': 0, 'bound': bound, 'secs': 0.0}]
@@ -358,14 +369,25 @@ def run_conc_reject_bounded(tokset, chunk, nchunks):
 
 
 BOUNDED_CODE = r'''
+import itertools
 import json
 from pyplate import Unit
 from pyvc import replaylib as R
 from contracts.c14_grammar import concentration_denotation, classify
-STRINGS = json.loads(r"""@@STRINGS@@""")
+TOKENS = json.loads(r"""@@TOKENS@@""")
+def strings():
+    nums = [' '.join(t) for n in (1, 2, 3) for t in itertools.product(TOKENS, repeat=n)]
+    dens = [''] + ['/' + ' '.join(t) for n in range(1, @@MAXDEN@@ + 1) for t in itertools.product(TOKENS, repeat=n)]
+    for i, nu in enumerate(nums):
+        if i % @@NCHUNKS@@ != @@CHUNK@@:
+            continue
+        for de in dens:
+            yield nu + de
 def run():
     fails = []
-    for t in STRINGS:
+    count = 0
+    for t in strings():
+        count += 1
         exp = concentration_denotation(t)
         try:
             got = Unit.parse_concentration(t)
@@ -377,7 +399,9 @@ def run():
             fails.append({'text': t, 'observed': repr(got), 'class': classify(t)})
         elif not (R.close(got[0], exp[0], 1e-9, 1e-10) and tuple(got[1:]) == tuple(exp[1:])):
             fails.append({'text': t, 'observed': repr(got), 'class': 'wrong-value'})
-    return {'ok': True, 'count': len(STRINGS), 'failures': fails[:2000]}
+        if len(fails) > 5000:
+            break
+    return {'ok': True, 'count': count, 'failures': fails[:2000]}
 '''
 
 
